@@ -737,12 +737,21 @@ def lexer_classes(ctx):
                             return r
             return None
         cname = char_var(cond) or "c"
+        # the tested character may be the parameter of an inlined helper (`let next = c`): the scenario binds the variable it is
+        # an alias of as well
+        cnames = {cname}
+        for _ in range(3):
+            for y in walk(cond):
+                if y["k"] == "Let" and y.get("inl_param") and y["pat"].get("name") in cnames and "init" in y:
+                    src_ = peel(y["init"])
+                    if src_["k"] == "Path" and src_.get("rk") == "Local" and src_.get("name"):
+                        cnames.add(src_["name"])
         for vals in itertools.product([False, True], repeat=4):
             fl = dict(zip(flags, vals))
             for c in chars:
               for words, psr in ((["a", "b"], False), (["a"], True), (["a", "b"], True)):
                 try:
-                    got = interp.eval_in(nh, cond, {"self": dict(fl, possible_search_root=psr, input=list(words)), cname: c}, call=tcall, prog=ctx.prog)
+                    got = interp.eval_in(nh, cond, dict({"self": dict(fl, possible_search_root=psr, input=list(words))}, **{nm_: c for nm_ in cnames}), call=tcall, prog=ctx.prog)
                 except interp.Undecided as e:
                     badt = ("unreadable", "cannot evaluate the end-of-token condition: %s" % e)
                     break
